@@ -1,4 +1,5 @@
 import MidoProofs.Props.C17
+import MidoProofs.TableTie
 #print axioms Mido.C17_step_scoped
 #print axioms Mido.C17_scoped
 #print axioms Mido.C17_probe_default
@@ -6,3 +7,4 @@ import MidoProofs.Props.C17
 #print axioms Mido.C17_inner_charset
 #print axioms Mido.C17_utf8_roundtrip
 #print axioms Mido.C17_latin_roundtrip
+#print axioms Mido.tie_default_charset
